@@ -258,6 +258,10 @@ def _smd_rot(rng: random.Random) -> float:
     return 0.0
 
 
+def _rot_ok(d: float) -> bool:
+    return 0 <= d < 360 and math.degrees(float('%.6f' % math.radians(d))) == d
+
+
 def _q64(rng: random.Random, lim: int = 64 * 200) -> float:
     return rng.choice([0.0, 1.0, -1.0, rng.randint(-lim, lim) / 64.0])
 
@@ -304,9 +308,14 @@ def smd_build(spec: dict):
     from srctools.smd import Mesh, Bone, BoneFrame, Vertex, Triangle
     from srctools.math import Vec, Angle
     bl = []
+    used: set[str] = set()
     for b in spec['bones']:
         p = b['parent']
-        bl.append(Bone(b['name'], bl[p] if 0 <= p < len(bl) else None))
+        nm = b['name']
+        while nm in used:             # bone names are the identity of a bone
+            nm += '_'
+        used.add(nm)
+        bl.append(Bone(nm, bl[p] if 0 <= p < len(bl) else None))
     if not bl:
         bl.append(Bone('root', None))
     order = [i for i in spec.get('order', []) if i < len(bl)]
@@ -315,14 +324,17 @@ def smd_build(spec: dict):
     nb = len(bl)
     anim = {}
     for a in spec['anim']:
-        anim[a['time']] = [BoneFrame(bl[f['bone'] % nb], Vec(*f['pos']), Angle(*f['rot'])) for f in a['frames']]
+        anim[a['time']] = [BoneFrame(bl[f['bone'] % nb], Vec(*(f['pos'] + [0.0] * 3)[:3]), Angle(*[x if _rot_ok(x) else 0.0 for x in (f['rot'] + [0.0] * 3)[:3]])) for f in a['frames']]
     tris = []
     for t in spec['tris']:
-        vs = [Vertex(Vec(*v['pos']), Vec(*v['norm']), v['u'], v['v'],
-                     [(bl[li % nb], w) for li, w in (v['links'] or [[0, 1.0]])]) for v in t['verts']]
+        def links(v):
+            ls = [(bl[li % nb], w) for li, w in (v['links'] or [[0, 1.0]])]
+            return [(ls[0][0], 1.0)] if len(ls) == 1 else ls      # a single link has no weight field in the format
+        vs = [Vertex(Vec(*(v['pos'] + [0.0] * 3)[:3]), Vec(*(v['norm'] + [0.0] * 3)[:3]), v['u'], v['v'], links(v)) for v in t['verts']]
         while len(vs) < 3:
             vs.append(Vertex(Vec(), Vec(), 0.0, 0.0, [(bl[0], 1.0)]))
-        tris.append(Triangle(t['mat'], *vs[:3]))
+        mat = t['mat'].strip('/ ') or 'm'       # the reader strips the line and trailing slashes
+        tris.append(Triangle('end_' if mat == 'end' else mat, *vs[:3]))
     return Mesh(bones, anim, tris)
 
 
@@ -432,7 +444,12 @@ def snd_build(spec: dict):
     from srctools import sndscript as S
     from srctools.keyvalues import Keyvalues
     out = []
+    used: set[str] = set()
     for s in spec['sounds']:
+        s = dict(s)
+        while s['name'].casefold() in used:     # a soundscript file is a dict keyed by the casefolded name
+            s['name'] += '_'
+        used.add(s['name'].casefold())
         st = s['stacks?']
         kw = {}
         if st is not None:
@@ -622,7 +639,17 @@ def _pcf_attr(nm: str, ty: str, val: Any):
 
 def pcf_build(spec: dict):
     from srctools.particles import Particle, Operator, Child
-    systems = spec['systems']
+    systems = []
+    used: set[str] = set()
+    for s in spec['systems']:
+        s = dict(s)
+        while s['name'].casefold() in used:
+            s['name'] += '_'
+        used.add(s['name'].casefold())
+        s['options'] = [o for o in s['options'] if o[0].casefold() not in PCF_RESERVED]
+        for kind in ('renderers', 'operators', 'initializers', 'emitters', 'forces', 'constraints'):
+            s[kind] = [dict(o, options=[x for x in o['options'] if x[0].casefold() not in PCF_RESERVED]) for o in s.get(kind, [])]
+        systems.append(s)
     out = []
     for s in systems:
         def ops(kind):
@@ -922,7 +949,15 @@ def image_gen(rng: random.Random) -> dict:
 
 def image_build(spec: dict):
     from srctools.choreo import Entry
-    return spec['version'] if spec['version'] in (2, 3) else 3, [Entry.from_scene(e['filename'] or 'x.vcd', scene_build(e['scene'])) for e in spec['entries']]
+    ents = []
+    seen: set[int] = set()
+    for e in spec['entries']:
+        ent = Entry.from_scene(e['filename'] or 'x.vcd', scene_build(e['scene']))
+        if ent.checksum in seen:      # an image is a dict keyed by checksum: equal checksums are one entry
+            continue
+        seen.add(ent.checksum)
+        ents.append(ent)
+    return spec['version'] if spec['version'] in (2, 3) else 3, ents
 
 
 def image_write(obj) -> bytes:
